@@ -207,15 +207,15 @@ Definition rstep3 (op : fop) (orig : flags) (st : rstate) (w : flags) : rstate *
           | Some d =>
               if Nat.eqb d block_id then
                 let st := set_del None st in
-                if negb (r_retain st) then (set_retain true st, w_alt_empty w)
+                if negb (r_retain st) then (set_retain true st, w_delete w)
                 else cont (set_retain true st) w
-              else (st, w_alt_empty w)
+              else (st, w_delete w)
           | None => cont st w
           end
       end
   | _ =>
       match r_del st with
-      | Some _ => (st, w_alt_empty w)
+      | Some _ => (st, w_delete w)
       | None => flag_stage op orig st w
       end
   end.
